@@ -1,22 +1,82 @@
-"""regenerate every coq/Gen/*.v from /repo (used by setup.sh so that a full `make` can build
-all proof files). Each property module exposes  regen(ctx)  when it has generated inputs."""
-import importlib
-import os
-import sys
+"""regenerate every coq/Gen/*.v from /repo (used by setup.sh so that a full `make` can build all
+proof files, and by the driver to refresh generated files that a property imports but another
+property's module owns). Each property module exposes  regen(ctx)  when it has generated inputs.
+
+  regen_all.py            regenerate everything, record which module writes which Gen file
+                          in .work/gen_owners.json
+"""
 import glob
+import importlib
+import json
+import os
+import re
+import sys
+import time
+import traceback
+
 HERE = os.path.dirname(os.path.abspath(__file__))
 sys.path.insert(0, HERE)
-import vlib
-vlib.ensure_repo_on_path()
-rc = 0
-for f in sorted(glob.glob(os.path.join(HERE, 'props', 'c*.py'))):
-    name = os.path.basename(f)[:-3]
-    mod = importlib.import_module('props.' + name)
-    if hasattr(mod, 'regen'):
-        ctx = vlib.Ctx(name.upper() + '.regen', 'quick', 0)
+sys.path.insert(0, os.path.join(HERE, 'gen'))
+import vlib  # noqa: E402
+
+OWNERS = os.path.join(vlib.WORK, 'gen_owners.json')
+
+
+def gen_snapshot():
+    out = {}
+    for f in glob.glob(os.path.join(vlib.COQ, 'Gen', '*.v')):
         try:
-            mod.regen(ctx)
-        except Exception as ex:  # noqa: BLE001
-            print('regen %s: %s' % (name, ex))
+            out[os.path.basename(f)] = os.stat(f).st_mtime_ns
+        except OSError:
+            pass
+    return out
+
+
+def regen_one(name, owners=None):
+    """run props.<name>.regen; returns list of Gen files it (re)wrote or touched"""
+    mod = importlib.import_module('props.' + name)
+    if not hasattr(mod, 'regen'):
+        return []
+    ctx = vlib.Ctx(name.upper() + '.regen', 'quick', 0)
+    written = []
+    orig_write = vlib.py2coq.write_if_changed
+
+    def rec(path, text):
+        if os.path.dirname(path).endswith('Gen'):
+            written.append(os.path.basename(path))
+        return orig_write(path, text)
+    vlib.py2coq.write_if_changed = rec
+    try:
+        mod.regen(ctx)
+    finally:
+        vlib.py2coq.write_if_changed = orig_write
+    return sorted(set(written))
+
+
+def main():
+    vlib.ensure_repo_on_path()
+    os.makedirs(vlib.WORK, exist_ok=True)
+    owners = {}
+    rc = 0
+    for f in sorted(glob.glob(os.path.join(HERE, 'props', 'c*.py'))):
+        name = os.path.basename(f)[:-3]
+        if not re.fullmatch(r'c\d\d', name):
+            continue
+        t = time.time()
+        try:
+            w = regen_one(name)
+            for g in w:
+                owners.setdefault(g, [])
+                if name not in owners[g]:
+                    owners[g].append(name)
+            print('regen %s: %d files, %.1fs' % (name, len(w), time.time() - t), flush=True)
+        except BaseException as ex:  # noqa: BLE001
+            print('regen %s FAILED: %s' % (name, str(ex)[:200]), flush=True)
             rc = 1
-sys.exit(rc)
+    with open(OWNERS, 'w') as fh:
+        json.dump(owners, fh, indent=1)
+    return rc
+
+
+if __name__ == '__main__':
+    sys.exit(main())
